@@ -20,11 +20,15 @@ def stmt_obligations(tier: str, seed: int, mode: str):
     from props import stmtctx
 
     obls = []
-    for d, sql, name, pre, post in stmtctx.select(tier, seed, 36 if mode == "errors" else 48):
+    ctxs = stmtctx.select(tier, seed, 36 if mode == "errors" else 48)
+    if tier != "quick":
+        # thorough: a seed-rotated third of all contexts (the whole set is explored by tools/stmt_sweep.py)
+        ctxs = [c for i, c in enumerate(ctxs) if i % 3 == seed % 3]
+    for d, sql, name, pre, post in ctxs:
         si = [c[1] for c in stmtctx.CORPUS].index(sql)
         key = f"stmt-{mode}:{d or 'base'}:{si}:{name}"
         obls.append(Obl(key=key, harness="h_stmt.py", params={"dialect": d, "pre": pre, "post": post, "minlen": 0, "maxlen": 1, "mode": mode},
-                        cond_timeout=200 if tier == "quick" else 900, path_timeout=60, twin_timeout=90,
+                        cond_timeout=250 if tier == "quick" else 400, path_timeout=60, twin_timeout=90,
                         desc={"dialect": d or "base", "statement": sql, "sql": pre + "<h>" + post, "mode": mode}, group=key))
     return obls
 
